@@ -298,8 +298,15 @@ KeyRef key_rsa_pool(int bits, int idx)
 	KeyRef k = std::make_shared<KeyTruth>();
 	k->kty = K_RSA;
 	k->bits = bits;
-	EVP_PKEY_up_ref(pk);
-	k->pkey = pk;
+	// A private copy per use: an RSA object caches its blinding state after the first private
+	// operation (which draws entropy), so sharing one object across runs made a run's entropy
+	// consumption - and with it PSS salts and ECDSA nonces later in the step - depend on what the
+	// worker had executed before.
+	k->pkey = EVP_PKEY_dup(pk);
+	if (!k->pkey) {
+		fprintf(stderr, "jwtsim: EVP_PKEY_dup failed\n");
+		_exit(2);
+	}
 	k->label = strf("rsa%d#%d", bits, idx);
 	return k;
 }
